@@ -135,18 +135,25 @@ def seg_config(rng, dim, planar_exact):
     else:
         g = G.rat_iso(rng, dim)
         ph, vh = g[0], g[1]
-    while True:
+    for _ in range(200):
         b1, b2 = Q.rboost(rng, 6), Q.rboost(rng, 6)
-        if b1[2] != b2[2]:
-            break
-    X = [[b[0] * a + b[1] * c for a, c in zip(ph, vh)] for b in (b1, b2)]
-    return X
+        if b1[2] == b2[2]:
+            continue
+        X = [[b[0] * a + b[1] * c for a, c in zip(ph, vh)] for b in (b1, b2)]
+        # bounded condition (DESIGN §3): Klein radius <= 0.95, Klein distance >= 0.05
+        K = [[x / v[0] for x in v[1:]] for v in X]
+        if all(sum(x * x for x in k) <= F(9025, 10000) for k in K) and \
+                sum((a - b) ** 2 for a, b in zip(*K)) >= F(25, 10000):
+            return X
+    return None
 
 
 def gen_ideal(rng, n):
     for _ in range(n):
         dim = rng.choice([2, 3, 4])
-        X = seg_config(rng, dim, False)
+        X = None
+        while X is None:
+            X = seg_config(rng, dim, False)
         if rng.random() < 0.6:
             X = [[x / v[0] for x in v] for v in X]       # Klein-normalised representatives (what the constructors store)
             scaled = False
@@ -189,7 +196,9 @@ def judge_ideal(inp, obs, lr):
 
 def gen_circle(rng, n):
     for _ in range(n):
-        X = seg_config(rng, 2, True)
+        X = None
+        while X is None:
+            X = seg_config(rng, 2, True)
         X = [[x / v[0] for x in v] for v in X]
         yield {"x1": G.qv(X[0]), "x2": G.qv(X[1]), "model": rng.choice(["poincare", "halfspace"]), "degrees": rng.random() < 0.5}
 
@@ -229,7 +238,11 @@ def gen_sphere(rng, n):
     for _ in range(n):
         dim = rng.choice([2, 3, 3, 4, 4])
         k = rng.randint(2, dim)
-        ks, m = ideal_config(rng, dim, k)
+        while True:
+            ks, m = ideal_config(rng, dim, k)
+            # keep the subspace away from the half-space point at infinity (1,0,..,0): |e - c|^2 - r^2 = 2 - 2 m_0/|m|^2
+            if abs(1 - m[0] / sum(x * x for x in m)) >= F(1, 10):
+                break
         sc = [G.rscale(rng) for _ in ks]
         yield {"dim": dim, "k": k, "ks": [G.qv(x) for x in ks], "scale": G.qv(sc), "kind": rng.choice(["subspace", "geodesic"] if k == 2 else ["subspace"])}
 
@@ -403,7 +416,7 @@ def _d(a, b):
 def gen_o_segment(rng, n):
     for i in range(n):
         dim = rng.choice([2, 2, 2, 3, 4])
-        kind = rng.choice(["segment", "segment", "geodesic", "near_origin", "scaled"])
+        kind = rng.choice(["segment", "segment", "geodesic", "near_origin", "scaled", "through_origin"])
         if kind == "near_origin":
             # a segment whose line passes at Klein distance eps from the origin
             eps = 10 ** rng.uniform(-2.0, -0.7)
@@ -413,6 +426,9 @@ def gen_o_segment(rng, n):
             nrm /= np.linalg.norm(nrm)
             a, b = rng.uniform(-0.8, -0.1), rng.uniform(0.1, 0.8)
             k1, k2 = (eps * nrm + a * d).tolist(), (eps * nrm + b * d).tolist()
+        elif kind == "through_origin":
+            d = np.array(G.fsphere(rng, dim))
+            k1, k2 = (rng.uniform(-0.8, -0.1) * d).tolist(), (rng.uniform(0.1, 0.8) * d).tolist()
         elif kind == "geodesic":
             while True:
                 k1, k2 = G.fsphere(rng, dim), G.fsphere(rng, dim)
@@ -457,6 +473,9 @@ def run_o_segment(inp):
     out["ideal_norm"] = [float(abs(np.dot(x, x) - 1)) for x in ik]
     c, r = obj.sphere_parameters(model)
     c, r = np.array(c, dtype=float), float(r)
+    if inp["kind"] == "through_origin" and model == "poincare":
+        out["r"] = r
+        return out
     e = np.array(obj.endpoint_coords(model), dtype=float)
     out["r"] = r
     out["cmax"] = float(np.max(np.abs(c)))
@@ -492,6 +511,11 @@ def judge_o_segment(inp, obs, lr):
     if "exc" in obs:
         return {"expected": "parameters", "observed": obs, "tags": dict(tags, exc=obs["exc"])}
     r = obs["r"]
+    if inp["kind"] == "through_origin" and inp["model"] == "poincare":
+        # a diameter of the Poincare ball: the straight-line limit, reported as an infinite / astronomically large circle
+        if not (max(obs["null"]) <= 1e-9 and max(obs["collinear"]) <= 1e-7 and (not math.isfinite(r) or r > 1e6)):
+            return {"expected": "straight-line limit: radius infinite or > 1e6", "observed": obs, "tags": dict(tags, what="straight")}
+        return None
     if inp["model"] == "halfspace" and obs["pole"] > 0.8:
         return None     # an ideal endpoint close to the half-space point at infinity: outside the property's quantifier
     tol = LOOSE * (1 + r) * (1 + r if inp["kind"] == "near_origin" else 1) * (1 + obs["cmax"])
